@@ -32,6 +32,7 @@ def gen_cases(ctx, pid, n_random, variants):
     ops += srvlib.attach_cases()
     ops += srvlib.closefail_cases()
     ops += srvlib.counter_cases()
+    ops += srvlib.writefail_cases()
     ops += srvlib.matrix_cases(rng, variants)
     for _ in range(n_random):
         ops.append(srvlib.Gen(rng).history(rng.randint(6, 18)))
@@ -143,6 +144,7 @@ def main(ctx, replay=None):
     samples = [dict(ops=oplists[i], observed=outs[i]["obs"][-1]) for i in (0, len(oplists) // 2, len(oplists) - 1)]
     vlib.write_evidence(ctx, proof, extra, [
         "model Srv abstracts data to per-block write ids on an 8-block volume; snapshot content to the applied-write list",
+        "a failing data write = every descriptor of the head image swapped for a read-only one during the call (pwrite fails with EBADF before anything is written)",
         "crash = abandoning the Server object (process death without close); OWriteCrash (death between data and counter write) is proved in the model but not driven on the implementation in this tier",
         "atomicity of increaseRevisionCounter under revisionLock is Go runtime: sampled by the 16-writer run, not proved",
         "REST actions start/resize/replacedisk/setlogging/updatecloneinfo are modelled only up to the checkAction gate",
